@@ -223,14 +223,26 @@ class SimCheckPeriodConsistency(Contract):
     name = f"{SIM}._check_period_consistency"
     prop = ("C03",)
     top_level = True
-    cases = tuple((d, u) for d in UNITS for u in UNITS)
-    descr = ("a plain request is refused unless the variable is eternal or the period has the definition unit and size one")
+    cases = tuple((d, u) for d in UNITS for u in UNITS) + tuple((d, d, "after-a-valid-request") for d in UNITS if d != "eternity")
+    descr = ("a plain request is refused unless the variable is eternal or the period has the definition unit and size one - "
+             "whatever was requested before on the same simulation (an earlier valid request of the same variable does not make a "
+             "later one of another size pass)")
 
     def setup(self, I, ctx, case):
-        defp, unit = case
+        defp, unit = case[0], case[1]
         var = E.mk_variable(I, "v", defp)
         tbs = E.mk_tbs(I, {"v": var})
         sim = E.mk_simulation(I, tbs)
+        if len(case) == 3:
+            # history: the same variable was requested before for one definition period (accepted)
+            earlier = request_period(I, ctx, unit)
+            ctx.assume(zi(period_parts(earlier)[2]) == 1)
+            f, _ = self.target(I)
+            ctx.depth += 1
+            try:
+                I.inline_call(ctx, f, [], {"self": sim, "period": earlier, "variable": var})
+            finally:
+                ctx.depth -= 1
         return {"self": sim, "period": request_period(I, ctx, unit), "variable": var}
 
     def must_raise(self, a):
